@@ -63,6 +63,9 @@ func (d *decProp) Gen(kind string, idx int64, seed int64, tier string) core.Case
 		s = 0
 	}
 	r := core.Rand(s, d.id, kind, idx)
+	if class, _ := splitKind(kind); class == "giant" {
+		return core.MkCase(d.id, kind, idx, seed, tier, DCase{WS: 1 << 20, BS: 2 << 20, SUT: "decoder"})
+	}
 	if class, sut := splitKind(kind); class == "duo" || class == "bigduo" {
 		var duo DuoDCase
 		for g := 0; g < 2; g++ {
@@ -114,6 +117,9 @@ func snapshot(st *core.Stats, names ...string) map[string]int64 {
 }
 
 func (d *decProp) Run(c *core.Case, st *core.Stats) []core.Violation {
+	if class, _ := splitKind(c.Kind); class == "giant" {
+		return runGiant(c, st)
+	}
 	if class, _ := splitKind(c.Kind); class == "duo" || class == "bigduo" {
 		duo, err := decode[DuoDCase](c)
 		if err != nil {
@@ -358,7 +364,7 @@ func init() {
 		base: base{id: "C17", level: "exploration",
 			rule:        "decoder histories weighted towards a full buffer with already-read bytes so that a WriteBlock/Write/WriteMatch call both discards old data and appends; the reported n, k, l and DecoderBuffer.Off are compared with the model after every step, also for calls that stop early with an error after partial progress; non-trivial iff a block call discarded and appended or stopped early after progress; distinct = distinct concrete case",
 			assumptions: []string{"the model appends what the reported (k,l) denote; n and Off are compared with it"},
-			mandatory:   []string{"block_calls_that_discarded_and_appended", "block_stopped_early_after_progress", "valid_blocks_with_sequences", "steps_with_shrink", "counts_verified_after_writer_fault"}},
+			mandatory:   []string{"block_calls_that_discarded_and_appended", "block_stopped_early_after_progress", "valid_blocks_with_sequences", "steps_with_shrink", "counts_verified_after_writer_fault", "blocks_decoding_to_more_than_4GiB"}},
 		owned: owned("count-n", "count-k-l", "off", "oversized-accepted"),
 		kinds: func(tier string) []core.Segment {
 			m := tierScale(tier, 60)
@@ -367,7 +373,9 @@ func init() {
 				{Kind: "faulty:decoder", N: 8000 * m}, {Kind: "bigfaulty:decoder", N: 28 * m, Chunk: 3},
 				{Kind: "manyseq:buffer", N: 300 * m, Chunk: 30}, {Kind: "manyseq:decoder", N: 300 * m, Chunk: 30},
 				{Kind: "hugetight:buffer", N: 2 * tierScale(tier, 4), Chunk: 1}, {Kind: "hugetight:decoder", N: 2 * tierScale(tier, 4), Chunk: 1},
-				{Kind: "longmatch:buffer", N: 10 * tierScale(tier, 4), Chunk: 2}, {Kind: "longmatch:decoder", N: 6 * tierScale(tier, 4), Chunk: 2}}
+				{Kind: "longmatch:buffer", N: 10 * tierScale(tier, 4), Chunk: 2}, {Kind: "longmatch:decoder", N: 6 * tierScale(tier, 4), Chunk: 2},
+				// one WriteBlock call that decodes to more than 4 GiB (counting writer)
+				{Kind: "giant:decoder", N: 2, Chunk: 1}}
 		},
 		genC: func(r *rand.Rand, kind string, idx int64, tier string) DCase {
 			class, sut := splitKind(kind)
@@ -938,6 +946,54 @@ type C07Case struct {
 	// Huge: decoder window (0 = default) for the huge-window stream
 	Huge   int  `json:"huge,omitempty"`
 	IsHuge bool `json:"ishuge,omitempty"`
+}
+
+// runGiant: one Decoder.WriteBlock call whose block decodes to more than
+// 4 GiB (a literal byte, then matches of 1 MiB - 1 with offset 1; case 1: a
+// few thousand sequences more and literals in between) through a Decoder
+// with a 1 MiB window and a writer that only counts: the reported n, k and l
+// must be the true ones and the writer must have received exactly n bytes.
+func runGiant(c *core.Case, st *core.Stats) []core.Violation {
+	zw := &zeroWriter{}
+	d, err := lz.NewDecoder(zw, lz.DecoderConfig{WindowSize: 1 << 20, BufferSize: 2 << 20})
+	if err != nil {
+		st.Inc("config_rejected")
+		return nil
+	}
+	nseq := 4100 + int(c.Idx)*700
+	var blk lz.Block
+	var total int64
+	for i := 0; i < nseq; i++ {
+		s := lz.Seq{MatchLen: 1<<20 - 1, Offset: 1}
+		if i == 0 || (c.Idx > 0 && i%97 == 0) {
+			s.LitLen = 1
+			blk.Literals = append(blk.Literals, 0)
+		}
+		blk.Sequences = append(blk.Sequences, s)
+		total += int64(s.LitLen) + int64(s.MatchLen)
+	}
+	var n, k, l int
+	var werr, ferr error
+	if pv := call(func() {
+		n, k, l, werr = d.WriteBlock(blk)
+		ferr = d.Flush()
+	}); pv != nil {
+		return []core.Violation{core.V(c, "panic", "Decoder.WriteBlock of a block that decodes to %d bytes: %s", total, fmtPanic(pv))}
+	}
+	if werr != nil || ferr != nil {
+		// acceptance is C07's business
+		st.Inc("giant_block_refused")
+		return nil
+	}
+	if int64(n) != total || k != len(blk.Sequences) || l != len(blk.Literals) {
+		return []core.Violation{core.V(c, "count-n", "Decoder{W=1MiB,B=2MiB}.WriteBlock of %d sequences that decode to %d bytes returned n=%d k=%d l=%d (want %d, %d, %d)", len(blk.Sequences), total, n, k, l, total, len(blk.Sequences), len(blk.Literals))}
+	}
+	if zw.n != total || zw.bad != 0 {
+		return []core.Violation{core.V(c, "count-n", "WriteBlock reported n=%d but the writer received %d bytes (%d of them not zero)", n, zw.n, zw.bad)}
+	}
+	st.Inc("blocks_decoding_to_more_than_4GiB")
+	st.NonTrivial(c)
+	return nil
 }
 
 // zeroWriter checks that only zero bytes arrive and counts them.
